@@ -12,7 +12,7 @@ from autobean_refactor.models.internal.repeated import Repeated
 CASES = {'quick': 3000, 'thorough': 60000}
 GATES = {
     'quick': {'evaluations': 15000, 'claim_calls': 4000, 'claim_calls_moving_zero_width': 30, 'claim_calls_raising': 300,
-              'attribute_reads': 100000, 'wrapper_reads': 15000, 'deepcopies': 1000, 'comparisons': 1000, 'auto_claim_calls': 800,
+              'attribute_reads': 90000, 'wrapper_reads': 15000, 'deepcopies': 1000, 'comparisons': 1000, 'auto_claim_calls': 800,
               'pingpong_sequences': 1500},
     'thorough': {'evaluations': 400000, 'claim_calls_moving_zero_width': 800},
 }
